@@ -294,9 +294,11 @@ func (fr *c08Run) readCheck(db *leveldb.DB, where string, afterReopen bool) (hun
 func (fr *c08Run) classify(oracle, where, msg string, afterReopen bool) {
 	kind, typ := fr.lastFault()
 	journalWriteFailed := false
+	jkind := ""
 	for _, op := range fr.inj.firedOps() {
 		if op.Fd.Type == storage.TypeJournal && (op.Kind == stor.OpSync || op.Kind == stor.OpWrite) {
 			journalWriteFailed = true
+			jkind = string(op.Kind)
 		}
 	}
 	failedWrite := false
@@ -309,7 +311,7 @@ func (fr *c08Run) classify(oracle, where, msg string, afterReopen bool) {
 	if afterReopen {
 		sig += ":after-reopen"
 		if (oracle == "acked-missing" || oracle == "contents-mismatch") && journalWriteFailed && failedWrite {
-			sig = "writeLocked:journal-sync-failed:seq-reused:" + oracle + ":after-" + kind + "/" + typ
+			sig = "writeLocked:journal-sync-failed:seq-reused:" + oracle + ":after-" + jkind + "/journal"
 		}
 	}
 	fr.violate(sig, where+": "+msg, nil)
@@ -699,6 +701,11 @@ func runC08(c *Ctx) {
 						var ks []int
 						if c.Thorough || len(pos) <= 3 {
 							ks = pos
+						} else if typ == "journal" && (kind == stor.OpSync || kind == stor.OpWrite) {
+							// the window in which a failed journal write shows (until the next flush) is short: denser
+							for i := 0; i < len(pos); i += 3 {
+								ks = append(ks, pos[i])
+							}
 						} else {
 							a := 1 + r.Intn(len(pos)-2)
 							ks = []int{pos[0], pos[a], pos[len(pos)-1]}
